@@ -75,13 +75,17 @@ pub fn bodies(big: usize) -> Vec<Vec<u8>> {
         (0..big).map(|i| (i * 7 % 251) as u8).collect(),
     ]
 }
-const SERVERS: [&str; 2] = ["srv", "My Server/1.0"];
+const SERVERS: [&str; 3] = ["srv", "My Server/1.0", "a-very-long-server-identification-token/1.0.0-rc1+build.20260101.abcdef0123456789abcdef0123456789abcdef01 (x86_64-unknown-linux-gnu; firecracker-compatible; verification build with a name longer than any fixed-size staging buffer would reasonably expect to hold in one piece)"];
 fn allow_lists() -> Vec<Vec<Method>> {
-    vec![vec![], vec![Method::Put], vec![Method::Get, Method::Patch]]
+    let mut long = vec![];
+    for i in 0..40 {
+        long.push(METHODS[i % 3]);
+    }
+    vec![vec![], vec![Method::Put], vec![Method::Get, Method::Patch], long]
 }
 
 /// Reference model of the builder.
-#[derive(Default, Clone)]
+#[derive(Default, Clone, Debug)]
 struct Model {
     version: &'static str,
     code: u16,
@@ -293,7 +297,8 @@ impl System for Sys {
                 nontrivial = false;
             }
             Some(resp) => {
-                key = util::hash128(&[format!("{:?}", resp).as_bytes()]);
+                // product state: implementation (Debug rendering) x reference model
+                key = util::hash128(&[format!("{:?}", resp).as_bytes(), format!("{:?}", m).as_bytes()]);
                 let res = util::catch(|| self.check(resp, &m, key)).unwrap_or_else(|p| Err(("panic".into(), format!("serialization panicked: {}", p))));
                 violation = res.err().map(|(s, d)| Violation { signature: s, detail: format!("after calls {:?}: {}", path, d), replay: self.replay_json(path) });
                 obs = (key >> 64) as u64;
@@ -302,11 +307,12 @@ impl System for Sys {
                     for b in 0..self.bodies.len() {
                         enabled.push(Call::SetBody(b as u8));
                     }
-                    enabled.extend_from_slice(&[Call::ContentType(0), Call::ContentType(1), Call::Deprecation, Call::Encoding, Call::Server(0), Call::Server(1)]);
+                    enabled.extend_from_slice(&[Call::ContentType(0), Call::ContentType(1), Call::Deprecation, Call::Encoding, Call::Server(0), Call::Server(1), Call::Server(2)]);
                     for a in 0..3 {
                         enabled.push(Call::SetAllow(a));
                         enabled.push(Call::AllowMethod(a));
                     }
+                    enabled.push(Call::SetAllow(3));
                 }
             }
         }
@@ -368,7 +374,7 @@ pub fn run(thorough: bool) -> Vec<Part> {
         return vec![];
     }
     let mut part = Part::new("C05", "builder-states-r", "model_checking");
-    part.assume("breadth-first search over Response builder states: 2 versions x 11 status codes x all call sequences of length <= N (N = 4 quick, 5 thorough) over set_body (6 bodies: empty, 1 byte, contains CRLFCRLF, looks like a response, NUL/0xFF/CRLF bytes, large), set_content_type x2, set_deprecation, set_encoding, set_server x2, set_allow x3, allow_method x3, de-duplicated on the Debug rendering of the Response; a sweep over body lengths (every length 0..4200 plus boundaries up to 64 KiB quick; every length 0..65536 thorough); every state is serialized into sinks accepting 1, 2, 3, 7, 64 bytes per write and 6 mixed patterns and re-read by an independent response reader, alone and followed by other bytes");
+    part.assume("breadth-first search over Response builder states: 2 versions x 11 status codes x all call sequences of length <= N (N = 4 quick, 5 thorough) over set_body (6 bodies: empty, 1 byte, contains CRLFCRLF, looks like a response, NUL/0xFF/CRLF bytes, large), set_content_type x2, set_deprecation, set_encoding, set_server x3 (one of 280 bytes), set_allow x4 (one with 40 methods), allow_method x3, de-duplicated on the pair (Debug rendering of the Response, reference model state); a sweep over body lengths (every length 0..4200 plus boundaries up to 64 KiB quick; every length 0..65536 thorough); every state is serialized into sinks accepting 1, 2, 3, 7, 64 bytes per write and 6 mixed patterns and re-read by an independent response reader, alone and followed by other bytes");
     part.assume("the default Content-Type and Server values are not judged (the statement names the lines, not their defaults); set_content_length is exercised only by the 'unless explicitly set' side check; header text containing CR/LF passed to set_server is outside the property");
     let sys = Sys { bodies: bodies(if thorough { 65536 } else { 3000 }), max_calls: if thorough { 5 } else { 4 } };
     let limits = Limits { max_states: 12_000_000, max_secs: if thorough { 3000.0 } else { 100.0 }, ..Default::default() };
